@@ -161,7 +161,8 @@ fn check_header(hd: &HeaderDesc, out: &mut CaseOut) -> Option<HeaderCtx> {
                 Ok(got) => {
                     let d = diff_headers(hd, &got);
                     if !d.is_empty() {
-                        out.violation(format!("bcf-header-text-ne-desc:{}", aspect_class(&d)), format!("the header text embedded in the BCF file does not carry the description: {:?}", &d[..d.len().min(4)]));
+                        // header equality is C09's business; here only what it does to the dictionary counts
+                        out.count(&format!("embedded_header_text_lacks[{}]", aspect_class(&d)), 1);
                     }
                     // the dictionary any reader derives from that text
                     match Dict::of(&got) {
@@ -170,7 +171,7 @@ fn check_header(hd: &HeaderDesc, out: &mut CaseOut) -> Option<HeaderCtx> {
                             dict_broken = true;
                             let first = dict.strings.iter().zip(&d2.strings).position(|(a, b)| a != b);
                             out.violation(
-                                "bcf-header-dictionary-ne-writer-dictionary:IDX-not-written",
+                                format!("bcf-header-dictionary-ne-writer-dictionary:{}", if d.is_empty() { "text-equals-description".to_string() } else { format!("text-lacks-{}", aspect_class(&d)) }),
                                 format!(
                                     "records are encoded with the dictionary of the in-memory header (IDX honoured) but the written header text yields another one; first differing string index {first:?}: writer {:?} vs text {:?}; contigs writer {:?} vs text {:?}",
                                     first.and_then(|i| dict.strings.get(i)),
